@@ -507,26 +507,180 @@ def own_nodes(fnode):
                 stack.append(ch)
 
 
+def handler_mask(h):
+    """what the handler catches: ImportError (1), NameError (2), AttributeError (4).  A handler that contains a
+    `raise` does not make a NameError / AttributeError harmless (the code still fails because of the undefined name):
+    those two bits are dropped.  Bit 3 (8, catches nothing): the handler imports something -- the lazy-import idiom
+    repairs the failure, both interpreters go on alike."""
+    import ast
+    if h.type is None:
+        mask = 7
+    else:
+        mask = 0
+        for t in ast.walk(h.type):
+            if isinstance(t, ast.Name):
+                mask |= _HANDLER_MASK.get(t.id, 0)
+            elif isinstance(t, ast.Attribute):
+                mask |= _HANDLER_MASK.get(t.attr, 0)
+    own = list(own_nodes(ast.Module(body=h.body, type_ignores=[])))
+    if mask & 6 and any(isinstance(n, ast.Raise) for n in own):
+        mask &= ~6
+    if mask and any(isinstance(n, (ast.Import, ast.ImportFrom)) for n in own):
+        mask |= 8
+    return mask
+
+
 def guard_ranges(fnode):
-    """(first line, last line, mask) of every `try` body of the function whose handlers catch ImportError (1),
-    NameError (2) or AttributeError (4)"""
+    """(first line, last line, [mask of every catching handler, in order]) of every `try` BODY of the function (the
+    `else:` part is not guarded by the handlers)"""
     import ast
     out = []
     for n in own_nodes(fnode):
         if isinstance(n, ast.Try):
-            mask = 0
-            for h in n.handlers:
-                if h.type is None:
-                    mask |= 7
-                else:
-                    for t in ast.walk(h.type):
-                        if isinstance(t, ast.Name):
-                            mask |= _HANDLER_MASK.get(t.id, 0)
-                        elif isinstance(t, ast.Attribute):
-                            mask |= _HANDLER_MASK.get(t.attr, 0)
-            if mask and n.body:
-                last = max(getattr(x, "end_lineno", x.lineno) for x in n.body + n.orelse)
-                out.append((n.body[0].lineno, last, mask))
+            masks = [m for m in (handler_mask(h) for h in n.handlers) if m]
+            if masks and n.body:
+                last = max(getattr(x, "end_lineno", x.lineno) for x in n.body)
+                # when the handler runs, the `else:` part does not (one catching handler; several nest in the
+                # translation, which then checks the `else:` part as if it always ran)
+                skip = max([last] + [getattr(x, "end_lineno", x.lineno) for x in n.orelse]) if len(masks) == 1 else last
+                out.append((n.body[0].lineno, last, masks, skip))
+    return out
+
+
+def split_guarded(problems, guards):
+    """the problems of one function in source order -> (failures, caught): a problem inside a `try` body whose
+    handler catches it is not a failure of the function -- the handler runs, the rest of that body is skipped (the
+    problems there never happen); a caught problem is kept, as it is a handler that runs in this interpreter
+    (unless the handler repairs the failure by importing)"""
+    order = sorted(range(len(problems)), key=lambda i: (problems[i].get("line", 1 << 30), i))
+    fired, failures, caught = [], [], []
+    for i in order:
+        pr = problems[i]
+        ln = pr.get("line", -1)
+        if any(a <= ln <= b for a, b in fired):
+            continue
+        bit = _KIND_BIT.get(pr["kind"], 0)
+        if pr.get("probe") in ("hasattr", "getattr3"):
+            if not pr.get("repairs"):
+                caught.append(pr)       # the question itself is the handler; nothing is skipped
+            continue
+        hit = None
+        for a, b, masks, skip in sorted((g for g in guards if g[0] <= ln <= g[1]), key=lambda g: g[1] - g[0]):
+            m = next((m for m in masks if m & bit), None)
+            if m is not None:
+                hit = (a, skip, m)
+                break
+        if hit is None:
+            failures.append(pr)
+        else:
+            fired.append(hit[:2])
+            if not hit[2] & 8:
+                caught.append(pr)
+    return failures, caught
+
+
+def local_names(fnode):
+    """names that are local to the function (parameters, assigned, imported, handler names), minus `global`s"""
+    import ast
+    a = fnode.args
+    bound = {x.arg for x in a.posonlyargs + a.args + a.kwonlyargs} | {x.arg for x in (a.vararg, a.kwarg) if x}
+    for n in own_nodes(fnode):
+        if isinstance(n, ast.Name) and isinstance(n.ctx, (ast.Store, ast.Del)):
+            bound.add(n.id)
+        elif isinstance(n, ast.ExceptHandler) and n.name:
+            bound.add(n.name)
+        elif isinstance(n, (ast.Import, ast.ImportFrom)):
+            bound |= {(x.asname or x.name.split(".")[0]) for x in n.names}
+    globs = {n_ for n in own_nodes(fnode) if isinstance(n, ast.Global) for n_ in n.names}
+    return bound - globs
+
+
+def chain_of(node):
+    import ast
+    chain = []
+    while isinstance(node, ast.Attribute):
+        chain.append(node.attr)
+        node = node.value
+    if isinstance(node, ast.Name) and isinstance(node.ctx, ast.Load):
+        return node.id, chain[::-1]
+    return None
+
+
+def lazy_import_tests(fnode):
+    """ids of the nodes inside the test of an `if` whose branches import something (`if not hasattr(lena, "flow"):
+    import lena.flow`): such a test is the lazy-import idiom, not an import-order dependence"""
+    import ast
+    out = set()
+    for n in own_nodes(fnode):
+        if isinstance(n, ast.If) and any(isinstance(x, (ast.Import, ast.ImportFrom))
+                                         for b in n.body + n.orelse for x in ast.walk(b)):
+            out |= {id(x) for x in ast.walk(n.test)}
+    return out
+
+
+def attribute_probes(fnode, g, free=()):
+    """`hasattr(m.a, "b")` / `getattr(m.a, "b"[, default])` with a literal name, where `m.a` denotes a lena module in
+    this interpreter and the module has no attribute `b`: the question "has the module been imported" answered
+    with no (an AttributeError on a lena module that `hasattr` / the default swallows; without a default it is the
+    plain failing read)"""
+    import ast
+    out = []
+    if g.get("hasattr", builtins.hasattr) is not builtins.hasattr or g.get("getattr", builtins.getattr) is not builtins.getattr:
+        return out
+    loc = local_names(fnode) | set(free)
+    lazy = lazy_import_tests(fnode)
+    for n in own_nodes(fnode):
+        if isinstance(n, ast.Call) and isinstance(n.func, ast.Name) and n.func.id in ("hasattr", "getattr") \
+                and n.func.id not in loc and not n.keywords and len(n.args) in (2, 3) \
+                and isinstance(n.args[1], ast.Constant) and isinstance(n.args[1].value, str) \
+                and n.args[1].value.isidentifier() and not (n.func.id == "hasattr" and len(n.args) != 2):
+            c = chain_of(n.args[0])
+            if c is None or c[0] in loc:
+                continue
+            root, chain = c
+            val = g[root] if root in g else getattr(builtins, root, _MISSING)
+            for a in chain:
+                if val is _MISSING or not is_lena_module(val):
+                    break
+                val = getattr(val, a, _MISSING)
+            if val is _MISSING or not is_lena_module(val) or hasattr(val, n.args[1].value):
+                continue
+            kind = "hasattr" if n.func.id == "hasattr" else ("getattr3" if len(n.args) == 3 else "getattr2")
+            out.append({"kind": "AttributeError", "name": n.args[1].value, "on": val.__name__, "root": root,
+                        "line": n.lineno, "probe": kind, "repairs": id(n) in lazy})
+    return out
+
+
+def import_state_tests(fnode, g, free=()):
+    """`"lena.x" in sys.modules`, `sys.modules.get("lena.x")`, `sys.modules["lena.x"]`: questions about what has
+    been imported, with their answer in this interpreter"""
+    import ast
+    out = []
+    if g.get("sys") is not sys:
+        return out
+    loc = local_names(fnode) | set(free)
+    if "sys" in loc:
+        return out
+    lazy = lazy_import_tests(fnode)
+
+    def is_sys_modules(x):
+        return isinstance(x, ast.Attribute) and x.attr == "modules" and isinstance(x.value, ast.Name) and x.value.id == "sys"
+
+    def lena_const(x):
+        return isinstance(x, ast.Constant) and isinstance(x.value, str) and (x.value == "lena" or x.value.startswith("lena."))
+    for n in own_nodes(fnode):
+        name = None
+        if isinstance(n, ast.Compare) and len(n.ops) == 1 and isinstance(n.ops[0], (ast.In, ast.NotIn)) \
+                and is_sys_modules(n.comparators[0]) and lena_const(n.left):
+            name = n.left.value
+        elif isinstance(n, ast.Subscript) and is_sys_modules(n.value) and lena_const(n.slice) \
+                and isinstance(n.ctx, ast.Load):
+            name = n.slice.value
+        elif isinstance(n, ast.Call) and isinstance(n.func, ast.Attribute) and n.func.attr in ("get", "__contains__") \
+                and is_sys_modules(n.func.value) and n.args and lena_const(n.args[0]):
+            name = n.args[0].value
+        if name is not None and id(n) not in lazy:
+            out.append({"what": f"{name!r} in sys.modules", "line": n.lineno, "value": name in sys.modules})
     return out
 
 
@@ -554,7 +708,13 @@ def raised_classes(fnode, g):
             while isinstance(e, ast.Attribute):
                 chain.append(e.attr)
                 e = e.value
-            if not isinstance(e, ast.Name) or (e.id in bound and e.id not in globs):
+            if not isinstance(e, ast.Name):
+                continue
+            if e.id in bound and e.id not in globs:
+                # `raise v` where the local `v` is bound by nothing but `v = X(...)` / `v = X`: raises X
+                if not chain and not isinstance(n.exc, ast.Call):
+                    for obj in local_exception_classes(fnode, e.id, bound - globs, g):
+                        out.append((n.lineno, obj))
                 continue
             obj = g.get(e.id, getattr(builtins, e.id, None))
             for a_ in reversed(chain):
@@ -564,20 +724,142 @@ def raised_classes(fnode, g):
     return out
 
 
+def local_exception_classes(fnode, var, local, g):
+    import ast
+    a = fnode.args
+    params = {x.arg for x in a.posonlyargs + a.args + a.kwonlyargs} | {x.arg for x in (a.vararg, a.kwarg) if x}
+    if var in params:
+        return []
+    stores = assigns = 0
+    values = []
+    for n in own_nodes(fnode):
+        if isinstance(n, ast.Name) and n.id == var and isinstance(n.ctx, (ast.Store, ast.Del)):
+            stores += 1
+        elif isinstance(n, ast.ExceptHandler) and n.name == var:
+            stores += 1
+        elif isinstance(n, (ast.Import, ast.ImportFrom)) and any((x.asname or x.name.split(".")[0]) == var for x in n.names):
+            stores += 1
+        if isinstance(n, ast.Assign) and len(n.targets) == 1 and isinstance(n.targets[0], ast.Name) and n.targets[0].id == var:
+            assigns += 1
+            values.append(n.value.func if isinstance(n.value, ast.Call) else n.value)
+    if not assigns or stores != assigns:
+        return []
+    out = []
+    for v in values:
+        c = chain_of(v)
+        if c is None:
+            return []
+        root, chain = c
+        if root in local:
+            continue
+        obj = g.get(root, getattr(builtins, root, None))
+        for a_ in chain:
+            obj = getattr(obj, a_, None)
+        if isinstance(obj, type):
+            out.append(obj)
+    return out
+
+
 def has_imports(code):
     return any(i.opname == "IMPORT_NAME" for i in dis.get_instructions(code))
+
+
+def describe(v, depth=0):
+    """a deterministic description of what a module global is bound to (no addresses): enough to tell that another
+    sub-package's import has rebound it or has added to it"""
+    if v is None or isinstance(v, (bool, int, float, str, bytes)):
+        return type(v).__name__ + ":" + repr(v)[:60]
+    if isinstance(v, types.ModuleType):
+        return "module:" + v.__name__
+    if isinstance(v, (types.FunctionType, types.BuiltinFunctionType, types.MethodType, type)):
+        return ("class:" if isinstance(v, type) else "function:") + str(getattr(v, "__module__", "?")) + "." + \
+            str(getattr(v, "__qualname__", getattr(v, "__name__", "?")))
+    if isinstance(v, (list, tuple, set, frozenset, dict)):
+        head = type(v).__name__ + ":" + str(len(v))
+        if depth:
+            return head
+        try:
+            items = sorted(describe(x, 1) for x in v) if isinstance(v, (set, frozenset, dict)) else \
+                [describe(x, 1) for x in v]
+        except Exception:
+            items = []
+        return head + "[" + ",".join(items[:12]) + "]"
+    return "object:" + type(v).__module__ + "." + type(v).__qualname__
+
+
+def watch_handlers(repo):
+    """record, while the sub-packages are imported, every undefined-name failure (NameError, AttributeError on a lena
+    module, ImportError for a lena name) that a handler of lena's own import-time code catches: which handlers run
+    is part of what `import lena.X` does, and must not depend on what else has been imported"""
+    caught = []
+    root = os.path.join(os.path.abspath(repo), "lena") + os.sep
+    try:
+        mon = sys.monitoring
+        mon.use_tool_id(4, "c20static")
+
+        def on_handled(code, offset, exc):
+            if code.co_filename.startswith(root) and isinstance(exc, (NameError, AttributeError, ImportError)) \
+                    and exc_info(exc)["undefined_name"]:
+                line = None
+                tb = exc.__traceback__
+                while tb is not None:
+                    if tb.tb_frame.f_code is code:
+                        line = tb.tb_lineno
+                    tb = tb.tb_next
+                caught.append({"file": code.co_filename, "func": code.co_qualname, "line": line,
+                               "type": type(exc).__name__, "msg": _ADDR.sub("ADDR", str(exc))[:200]})
+        mon.register_callback(4, mon.events.EXCEPTION_HANDLED, on_handled)
+        mon.set_events(4, mon.events.EXCEPTION_HANDLED)
+
+        def stop():
+            mon.set_events(4, 0)
+            mon.free_tool_id(4)
+    except Exception:       # an interpreter without sys.monitoring: nothing is recorded
+        def stop():
+            pass
+    return caught, stop
+
+
+def repairing_handler(path, line, cache={}):
+    """does the `try` statement whose body contains `line` have a handler that imports something?"""
+    import ast
+    if path not in cache:
+        try:
+            with open(path, "rb") as fh:
+                cache[path] = ast.parse(fh.read())
+        except Exception:
+            cache[path] = None
+    tree = cache[path]
+    if tree is None or line is None:
+        return False
+    best = None
+    for n in ast.walk(tree):
+        if isinstance(n, ast.Try) and n.body and n.body[0].lineno <= line <= max(
+                getattr(x, "end_lineno", x.lineno) for x in n.body):
+            if best is None or n.body[0].lineno >= best.body[0].lineno:
+                best = n
+    return best is not None and any(handler_mask(h) & 8 for h in best.handlers)
 
 
 def static_probe(repo, pkg, subpackages):
     out = {"pkg": pkg, "python": sys.version.split()[0]}
     targets = subpackages if pkg == "all" else [pkg]
+    import_caught, stop_watching = watch_handlers(repo)
     try:
         for t in targets:
             __import__(t)
         out["import"] = "ok"
     except BaseException as e:   # noqa
         out["import"] = exc_info(e)
+    stop_watching()
     mods = lena_modules()
+    by_file = {getattr(m, "__file__", None): n for n, m in mods.items()}
+    out["import_caught"] = [{"module": by_file.get(c["file"], c["file"]), "func": c["func"], "line": c["line"],
+                             "type": c["type"], "msg": c["msg"]}
+                            for c in import_caught if not repairing_handler(c["file"], c["line"])]
+    # what the module globals are bound to (compared between the two interpreters of a sub-package by the harness)
+    out["state"] = {n: {k: describe(v) for k, v in vars(m).items() if not (k.startswith("__") and k.endswith("__"))}
+                    for n, m in mods.items()}
     out["loaded"] = sorted(mods)
     out["ns"] = {n: {k: val_kind(v) for k, v in vars(m).items()} for n, m in mods.items()}
     # star import and __all__ (after the snapshot: what the star import loads is not "imported by import lena.X")
@@ -619,6 +901,7 @@ def static_probe(repo, pkg, subpackages):
         function_codes(top, codes)
         fnodes = function_nodes(src)
         per = {}
+        code_of = {(c.co_qualname, c.co_firstlineno): tuple(c.co_freevars) + tuple(c.co_cellvars) for c in codes}
         for c in codes:
             q = owner_name(c)
             comp = q != c.co_qualname
@@ -663,11 +946,13 @@ def static_probe(repo, pkg, subpackages):
             node = fnodes.get((q, line))
             if node is None:
                 continue
-            # a failure inside a `try` whose handler catches it is not a failure of the function
-            guards = guard_ranges(node)
-            ent["problems"] = [pr for pr in ent["problems"]
-                               if not any(a <= pr.get("line", -1) <= b and (mask & _KIND_BIT.get(pr["kind"], 0))
-                                          for a, b, mask in guards)]
+            # questions about the import state (source level): hasattr / getattr on a lena module, sys.modules
+            free = code_of.get((q, line), ())
+            ent["problems"].extend(attribute_probes(node, vars(m), free))
+            ent["import_state"] = import_state_tests(node, vars(m), free)
+            # a failure inside a `try` whose handler catches it is not a failure of the function; it is a handler
+            # that runs in this interpreter
+            ent["problems"], ent["caught"] = split_guarded(ent["problems"], guard_ranges(node))
             # `raise` statements that name a class: resolved against the real objects
             if root_exc is not None:
                 for rline, obj in raised_classes(node, vars(m)):
